@@ -56,7 +56,7 @@ def task(seed):
             break
     return {"seed": seed, "problems": problems[:2], "entries": n_entries, "iters": h["iter_calls"], "opts": o,
             "n_mut": len(set(r["mutation_id"] for r in spec["inputs"]["rows"])), "clustered": spec["inputs"]["cluster_rows"] is not None,
-            "stats": h["stats"], "via_cli": spec["via_cli"]}
+            "stats": h["stats"], "via_cli": spec["via_cli"], "sim_time": h.get("sim_time", 0.0), "clock_reads": sum(h.get("clock_reads", []))}
 
 
 def run(ctx):
@@ -90,6 +90,8 @@ def run(ctx):
     ctx.cov["distinct_nontrivial"] = len(sig)
     ctx.cov["runs_skipped_for_time"] = len(res) - len(done)
     ctx.cov["trace_entries_checked"] = sum(o["entries"] for o in done)
+    ctx.cov["simulated_seconds_covered"] = round(sum(o["sim_time"] for o in done), 1)
+    ctx.cov["simulated_clock_reads"] = sum(o["clock_reads"] for o in done)
     ctx.cov["rule"] = ("one evaluation = one simulated `phyclone run` (real load_data, run, chain driver, trace writer) on a generated input "
                        "table (1-8 mutations, 1-3 samples, clustered or not, identical / zero-depth rows) with options drawn boundary-biased "
                        "from what the CLI accepts; a quarter enter through the click command; clock and chain schedule simulated; "
